@@ -284,6 +284,12 @@ def run(ck):
         emit = g.calls(r"Encoder::<W>::encode_raw$|encode_raw$")
         sorts = len(srt) == 1 and len(emit) >= 1 and all(g.dominates(srt[0][0], b) for (b, _) in emit)
         ck.ob("EFF", g.path, "entries-sorted-before-emission", sorts, "map entries are sorted (deterministic encoding) before being written", g.loc())
+        # ... in the bytewise lexicographic order of the encoded entries (RFC 8949 core deterministic encoding): the sort key is
+        # the encoded bytes themselves. A key with a leading length component is the older length-first order, which differs
+        # as soon as keys of different major types or lengths meet
+        kt = [(t["f"].get("gargs") or ["", "", ""])[1] for (_, t) in srt if re.search(r"sort(_unstable)?_by_key$", t["f"]["path"])]
+        ck.ob("CMP", g.path, "sort-key-is-the-encoded-bytes", (kt == ["&[u8]"]) or (not kt and len(srt) == 1),
+              "entries are ordered by their encoded bytes (&[u8])" if kt == ["&[u8]"] else "the sort key has type %s instead of the encoded bytes: entries are not in bytewise lexicographic order" % kt, g.loc(srt[0][0]) if srt else g.loc())
     iters = sorted(p for p in cg.reach(eroots) if any(HASH_ITER.search(x) for x in cg.ext.get(p, ())))
     for p in iters:
         g = Fn(cg.bodies[p][0])
